@@ -38,38 +38,52 @@ Print Assumptions C08_list_modes_pure.
 (* (3) --list-inputs names every input that influences the real run's output (templates the generators' environments load,
    resolved through the active loader chain; DSDL sources of the dependency closure of every generated type), PROVIDED
    no root-namespace type uses a type from a lookup directory, every loaded template file has the .j2 suffix, and
-   --support-templates does not shadow a packaged support template. *)
+   --support-templates does not shadow a packaged support template.
+   The three triggers are the EFFECTIVE ones for the tree under test (the eff_trig definitions in Gen/Listing.v): a trigger whose repair
+   (design_notes/C08_fix_lookup/nonj2/suptpl.patch, recognised by the translator as the k_fix flags) is present is identically false;
+   with the non-.j2 repair the remaining trigger is "a Python package file is loaded as a template". *)
 Theorem C08_list_inputs_complete_partial :
   forall (c : cfg) (i : inputs), f_lc (c_flags c) = false -> rejected c = false ->
-  trig_lookup i = false -> trig_nonj2 c i = false -> trig_support_override the_code c = false -> support_consistent c = true ->
+  eff_trig_lookup the_code i = false -> eff_trig_tpl the_code c i = false -> eff_trig_sup the_code c = false ->
+  (k_fix_suptpl the_code || support_consistent c) = true ->
   forall x, In x (influence_set the_code c i) ->
   forall f, exists out, run the_code (li_of c) i f = (f, out, Ok) /\ In x out.
 Proof. exact list_inputs_partial_thm. Qed.
 Print Assumptions C08_list_inputs_complete_partial.
 
-(* The full statement is false of the faithful model in three ways; each witness violates exactly one trigger. *)
+(* (3') The full statement, live as soon as the tree has the three repairs. *)
+Theorem C08_list_inputs_complete :
+  k_fix_lookup the_code = true -> k_fix_nonj2 the_code = true -> k_fix_suptpl the_code = true ->
+  forall (c : cfg) (i : inputs), f_lc (c_flags c) = false -> rejected c = false -> trig_py c i = false ->
+  forall x, In x (influence_set the_code c i) ->
+  forall f, exists out, run the_code (li_of c) i f = (f, out, Ok) /\ In x out.
+Proof. exact list_inputs_complete_thm. Qed.
+Print Assumptions C08_list_inputs_complete.
+
+(* On a tree without the respective repair the full statement is false of the faithful model; each witness violates exactly one
+   trigger.  (With the repair the premise is false and the finding is gone: the check then prints no KNOWN-FINDING line.) *)
 (* F-LIST-INPUTS-LOOKUP *)
-Theorem C08_list_inputs_lookup_refuted :
+Theorem C08_list_inputs_lookup_refuted : k_fix_lookup the_code = false ->
   exists (c : cfg) (i : inputs) (x : list (list N)),
     trig_lookup i = true /\ trig_nonj2 c i = false /\ trig_support_override the_code c = false
     /\ path_in x (influence_set the_code c i) = true /\ path_in x (listed c i) = false.
-Proof. exists (w_cfg SAsNeeded false None None), w_inputs_lookup, [[108]; [68]]. exact list_inputs_lookup_refuted_w. Qed.
+Proof. intros H. exists (w_cfg SAsNeeded false None None), w_inputs_lookup, [[108]; [68]]. exact (list_inputs_lookup_refuted_w H). Qed.
 Print Assumptions C08_list_inputs_lookup_refuted.
 
 (* F-LIST-INPUTS-NONJ2 *)
-Theorem C08_list_inputs_nonj2_refuted :
+Theorem C08_list_inputs_nonj2_refuted : k_fix_nonj2 the_code = false ->
   exists (c : cfg) (i : inputs) (x : list (list N)),
     trig_lookup i = false /\ trig_nonj2 c i = true /\ trig_support_override the_code c = false
     /\ path_in x (influence_set the_code c i) = true /\ path_in x (listed c i) = false.
-Proof. exists (w_cfg SAsNeeded false (Some w_tpl_nonj2) None), w_inputs_nonj2, [[112]; [120]]. exact list_inputs_nonj2_refuted_w. Qed.
+Proof. intros H. exists (w_cfg SAsNeeded false (Some w_tpl_nonj2) None), w_inputs_nonj2, [[112]; [120]]. exact (list_inputs_nonj2_refuted_w H). Qed.
 Print Assumptions C08_list_inputs_nonj2_refuted.
 
 (* F-LIST-INPUTS-SUPTPL *)
-Theorem C08_list_inputs_support_override_refuted :
+Theorem C08_list_inputs_support_override_refuted : k_fix_suptpl the_code = false ->
   exists (c : cfg) (i : inputs) (x : list (list N)),
     trig_lookup i = false /\ trig_nonj2 c i = false /\ trig_support_override the_code c = true
     /\ path_in x (influence_set the_code c i) = true /\ path_in x (listed c i) = false.
-Proof. exists (w_cfg SAsNeeded false None (Some w_sup_dir)), w_inputs_plain, [[100]; [115]]. exact list_inputs_support_override_refuted_w. Qed.
+Proof. intros H. exists (w_cfg SAsNeeded false None (Some w_sup_dir)), w_inputs_plain, [[100]; [115]]. exact (list_inputs_support_override_refuted_w H). Qed.
 Print Assumptions C08_list_inputs_support_override_refuted.
 
 (* (3b) What --list-inputs prints for the type generator is the set of PATHS of the files with the template suffix that its
@@ -77,13 +91,13 @@ Print Assumptions C08_list_inputs_support_override_refuted.
    paths of the packaged resources SupportGenerator.get_templates enumerates. *)
 Theorem C08_listed_templates_are_servable_paths :
   forall (c : cfg) (o : bool) (p : list (list N)),
-  In p (listed_templates the_code c GTypes o) <-> exists d f, In d (chain c GTypes) /\ In f d /\ tf_j2 f = true /\ tf_path f = p.
+  In p (listed_templates the_code c GTypes o) <-> exists d f, In d (chain c GTypes) /\ In f d /\ listable the_code f = true /\ tf_path f = p.
 Proof. exact (listed_templates_servable_gen the_code). Qed.
 Print Assumptions C08_listed_templates_are_servable_paths.
 
 Theorem C08_listed_support_templates_are_resource_paths :
   forall (c : cfg) (o : bool) (p : list (list N)),
-  In p (listed_templates the_code c GSupport o) <-> exists r, In r (support_resources the_code c o) /\ sr_path r = p.
+  In p (listed_templates the_code c GSupport o) <-> exists r, In r (support_resources the_code c o) /\ sup_listed_path the_code c r = p.
 Proof. exact (listed_support_resources_gen the_code). Qed.
 Print Assumptions C08_listed_support_templates_are_resource_paths.
 
@@ -111,8 +125,8 @@ Proof. exact example_real_run. Qed.
 
 Example C08_partial_hypotheses_satisfiable :
   let c := w_cfg SAsNeeded false None None in
-  rejected c = false /\ trig_lookup w_inputs_plain = false /\ trig_nonj2 c w_inputs_plain = false
-  /\ trig_support_override the_code c = false /\ support_consistent c = true
+  rejected c = false /\ eff_trig_lookup the_code w_inputs_plain = false /\ eff_trig_tpl the_code c w_inputs_plain = false
+  /\ eff_trig_sup the_code c = false /\ support_consistent c = true /\ trig_py c w_inputs_plain = false
   /\ path_in [[114]; [66]] (influence_set the_code c w_inputs_plain) = true.
 Proof. exact example_partial_hyps. Qed.
 
